@@ -1,20 +1,34 @@
 #!/bin/bash
-# Regression test of the checks themselves: applies every seeded change to /repo's working tree
-# (never committed), runs the check of the property it was seeded for (quick tier unless meta.json names another), compares the exit code
-# with the one recorded in seeded/<id>/meta.json, and restores the tree. Not a registered check.
-# usage: ./selftest_seeds.sh [pattern]      e.g. ./selftest_seeds.sh C06
+# Regression test of the checks themselves: applies every seeded change to a scratch worktree of
+# /repo HEAD (outside /repo and /verif, removed afterwards; /repo itself is not touched), runs the
+# check of the property it was seeded for (quick tier unless meta.json names another) against that
+# worktree (VERIF_REPO_SCRATCH: such runs never write the property's evidence file), and compares the
+# exit code with the one recorded in seeded/<id>/meta.json. Not a registered check.
+# usage: ./selftest_seeds.sh [-j N] [pattern]      e.g. ./selftest_seeds.sh -j 3 C06
 cd "$(dirname "$0")"
-[ -n "$(git -C /repo status --porcelain)" ] && { echo "/repo working tree is not clean"; exit 2; }
-fail=0
-for d in seeded/*${1}*/; do
+jobs=1
+if [ "$1" = "-j" ]; then jobs=$2; shift 2; fi
+pat=$1
+scratch=$(mktemp -d /tmp/vp_selftest.XXXXXX)
+one() {
+  d=$1; scratch=$2
   id=$(basename $d)
   prop=$(python3 -c "import json;print(json.load(open('$d/meta.json'))['property'])")
   want=$(python3 -c "import json;print(json.load(open('$d/meta.json'))['detected_by']['exit'])")
   tier=$(python3 -c "import json;print(json.load(open('$d/meta.json'))['detected_by'].get('tier','quick'))")
-  git -C /repo apply "$PWD/$d/patch.diff" || { echo "$id: patch does not apply"; fail=1; continue; }
-  out=$(timeout 7200 ./check $prop --tier $tier 2>&1); rc=$?
-  git -C /repo checkout -- . ; git -C /repo clean -fdq
+  wt=$scratch/$id
+  git -C /repo worktree add -q --detach $wt HEAD 2>/dev/null || { echo "FAIL $id: cannot create worktree"; return 1; }
+  if ! git -C $wt apply "$PWD/$d/patch.diff" 2>/dev/null; then
+    echo "FAIL $id: patch does not apply to /repo HEAD"; git -C /repo worktree remove --force $wt; return 1
+  fi
+  out=$(VERIF_REPO_SCRATCH=$wt timeout 7200 ./check $prop --tier $tier 2>&1); rc=$?
+  git -C /repo worktree remove --force $wt
   first=$(echo "$out" | grep -m1 '^  harness=' | sed 's/ native=.*//' | cut -c1-160)
-  if [ "$rc" = "$want" ]; then echo "ok   $id ($prop) exit=$rc $first"; else echo "FAIL $id ($prop) exit=$rc, recorded $want $first"; fail=1; fi
-done
-exit $fail
+  if [ "$rc" = "$want" ]; then echo "ok   $id ($prop) exit=$rc $first"; else echo "FAIL $id ($prop) exit=$rc, recorded $want $first"; return 1; fi
+}
+export -f one
+ls -d seeded/*${pat}*/ | xargs -P $jobs -I{} bash -c 'one {} '$scratch | tee $scratch.log
+fail=$(grep -c '^FAIL' $scratch.log)
+rm -rf $scratch $scratch.log; git -C /repo worktree prune
+rm -f evidence/*.scratch.*.partial.json
+[ "$fail" = 0 ]
